@@ -68,3 +68,17 @@ Qed.
 (* a call on a handle that is not a session handle changes nothing *)
 Theorem session_closed_unknown_noop : forall m h, find_h h (handles m) = None -> fst (step m (SessionClosed h)) = m.
 Proof. intros m h H. cbn [step]. rewrite H. reflexivity. Qed.
+
+(* "one handle per object" does NOT hold of the manager for an object pointer that is presented under two slots: the
+   mismatch branch erases only the pointer's entry in `objects`, the pointer is then registered afresh, and destroying the
+   OLD handle erases the NEW mapping (objects.erase is by pointer), so the next registration issues a third handle while
+   the second is still live.  The same sequence run on the compiled class (harness/hmdrv: `t 5 0 200 t 6 0 200 t 6 0 200
+   d 1 t 6 0 200`) prints `rv 1 0 2 0 3 live 2 3`.  The library's callers present a pointer under one slot only, so this
+   needs the allocator to reuse the address of a freed object of another token; recorded as an observation. *)
+Example one_handle_per_object_refuted_across_slots :
+  let xs := [AddObject 5 0 false 200; AddObject 6 0 false 200; AddObject 6 0 false 200; DestroyObject 1] in
+  let m := run init xs in
+  (snd (step m (AddObject 6 0 false 200)),
+   map (fun e => (eh e, eslot e, eobj e)) (handles (fst (step m (AddObject 6 0 false 200)))))
+  = (3, [(3, 6, 200); (2, 6, 200)]).
+Proof. vm_compute. reflexivity. Qed.
